@@ -969,6 +969,15 @@ func checkText(text string, looks []lookup, o *pbt.Obs) (class, error) {
 	cls, tree, why := classify(text)
 	switch cls {
 	case clMalformed:
+		if pbt.IsKnown(prop, kfBlankGlue) && blankGlued(text) {
+			pbt.Exclude("known finding " + kfBlankGlue + ": malformed only because of a blank inside parentheses")
+			for _, look := range looks {
+				if err := noCrash(text, look, true); err != nil {
+					return clUnspec, err
+				}
+			}
+			return clUnspec, nil
+		}
 		return cls, mustReject(text, why)
 	case clWF:
 		vars := map[string]bool{}
@@ -1192,6 +1201,7 @@ func FuzzFormula(f *testing.F) {
 		"2+2", "2 * x", "[x] * 4", "abs(-4)", "(2+2)*3", "2(1+1) ", "x*((y+2)/(2+2/2-1))", "2 - -(3-2)", "-x+x*2", "cos(3.1415926535)",
 		"1+3(2)", "1 < 2 && 5 > 4 && 5+2>=6", "5 < 2 || 4 > 2 || 0 > 1", "3^2 + 2 * 4^2 - 1", "5 & 0b100", "0b10 | 0b01", "1<<2", "4>>1", "5 % 2",
 		"!(1 > 2)", "round(3.5)", "x+", "(1+1)x", "1+(1+", "1+(1+1))", "1+(1+)", "1 $ 2", "-", "2 * -", "[0] % [1]", "1 << [0]", "5 % 0", "0x1BC", "a == b", "a <= -b",
+		"0&0%(-0& &(0))", "(x& &x)", "(1 2)", "2^3(4)", "6/2(1+2)", "x^2(3)(4)",
 	} {
 		f.Add(s, 3.0, -2.5)
 	}
